@@ -183,6 +183,14 @@ func (s *initialCryptoStream) Write(p []byte) (int, error) {
 	if s.cuts[0].start == protocol.InvalidByteCount {
 		sniPos, sniLen, echPos, err := findSNIAndECH(s.writeBuf)
 		if errors.Is(err, io.ErrUnexpectedEOF) {
+			// [UQUIC] Not parsable yet. That is expected while the ClientHello is still arriving,
+			// but once the buffer holds a whole handshake message no later Write can change the
+			// verdict (an extension body the parser does not accept, data behind the message):
+			// waiting on would keep HasData false for ever and the ClientHello would never be
+			// sent, without any error. There is nothing to scramble then: send it as it is.
+			if s.end == 0 && handshakeMessageComplete(s.writeBuf) {
+				s.scramble = false
+			}
 			return len(p), nil
 		}
 		if err != nil {
@@ -221,6 +229,12 @@ func (s *initialCryptoStream) Write(p []byte) (int, error) {
 		})
 	}
 	return len(p), nil
+}
+
+// handshakeMessageComplete reports whether b holds at least one whole TLS handshake message
+// (type, 24-bit length, body).
+func handshakeMessageComplete(b []byte) bool {
+	return len(b) >= 4 && len(b) >= 4+(int(b[1])<<16|int(b[2])<<8|int(b[3]))
 }
 
 func (s *initialCryptoStream) PopCryptoFrame(maxLen protocol.ByteCount) *wire.CryptoFrame {
